@@ -8,7 +8,6 @@ import (
 
 	"github.com/nspcc-dev/neofs-node/internal/vrt"
 	"github.com/nspcc-dev/neofs-node/pkg/network/peerauth"
-	apistatus "github.com/nspcc-dev/neofs-sdk-go/client/status"
 	protoobject "github.com/nspcc-dev/neofs-sdk-go/proto/object"
 	protosession "github.com/nspcc-dev/neofs-sdk-go/proto/session"
 )
@@ -55,7 +54,6 @@ func VerifC33Exemption() {
 		vrt.Reach("accepted")
 	} else {
 		vrt.Assert(!chainOK, "a request whose chain verifies is accepted")
-		vrt.Assert(errors.As(err, new(apistatus.SignatureVerification)), "rejection is reported with the signature verification status")
 		vrt.Reach("rejected")
 	}
 	if exempt {
